@@ -1810,15 +1810,16 @@ theorem countOverlap_perbase (A B : List Iv) (size : Nat) (hA : ∀ iv ∈ A, iv
 
 example : internallyDisjoint [(5, 8), (0, 3), (3, 4)] = true ∧ internallyDisjoint [(2, 6)] = true := by decide
 
-/-- the exported `get_pileup` is the per-base count, given that the external counting engine is -/
-theorem getPileup_dense (ext : List Iv → Nat → List Nat) (hext : ∀ I size, I ≠ [] → ext I size = specPileup I size)
-    (I : List Iv) (size : Nat) : getPileup ext I size = specPileup I size := by
-  cases I with
-  | nil =>
-    simp only [getPileup, List.isEmpty_nil, if_true, Rle.toDense, runs, List.append_nil, Nat.sub_zero, specPileup]
+/-- the part of the exported `get_pileup` that lives in the repository: an empty interval set gives the all-zero
+array; any other input is handed unchanged to the external counting engine (npstructures), whose agreement with the
+per-base count is correspondence only. (Earlier called `getPileup_dense`; it does not prove the engine.) -/
+theorem getPileup_empty_case (ext : List Iv → Nat → List Nat) (size : Nat) :
+    getPileup ext [] size = specPileup [] size ∧ ∀ a I, getPileup ext (a :: I) size = ext (a :: I) size := by
+  constructor
+  · simp only [getPileup, List.isEmpty_nil, if_true, Rle.toDense, runs, List.append_nil, Nat.sub_zero, specPileup]
     rw [List.range_eq_range']
     exact (map_range'_const _ 0 0 size (fun p _ _ => rfl)).symm
-  | cons a I => simp [getPileup, hext]
+  · intro a I; simp [getPileup]
 
 /-! ## spec-level characterisations, uniqueness, idempotence, order independence -/
 
@@ -2308,5 +2309,238 @@ theorem geoSort_perm_sorted (xs : List Rec) :
   ⟨isort_perm lexCS2 xs, (isort_pairwise lexCS2 lexCS2_total lexCS2_trans xs).imp (by
     intro a b h
     simpa [lexCS2] using h)⟩
+
+/-- the driver's executable sortedness test is the `SortedByStart` of the theorems -/
+theorem sortedByStart_iff (I : List Iv) : sortedByStart I = true ↔ SortedByStart I := by
+  induction I with
+  | nil => simp [sortedByStart, SortedByStart]
+  | cons a I ih =>
+    cases I with
+    | nil => simp [sortedByStart, SortedByStart]
+    | cons b I =>
+      have e : sortedByStart (a :: b :: I) = (decide (a.1 ≤ b.1) && sortedByStart (b :: I)) := by
+        simp [sortedByStart]
+      rw [e, Bool.and_eq_true, ih]
+      simp only [SortedByStart, decide_eq_true_eq]
+      constructor
+      · rintro ⟨h1, h2⟩
+        refine List.pairwise_cons.2 ⟨?_, h2⟩
+        intro c hc
+        rcases List.mem_cons.1 hc with rfl | hc
+        · exact h1
+        · have := (List.pairwise_cons.1 h2).1 c hc; omega
+      · intro h
+        exact ⟨(List.pairwise_cons.1 h).1 b (by simp), (List.pairwise_cons.1 h).2⟩
+
+/-- Jaccard / Forbes over several contigs: the model's value is the per-base definition (same IEEE quotient of the
+same counts) -/
+theorem jaccard_forbes_spec (cs : List Contig2)
+    (h : ∀ c ∈ cs, 0 < c.1 ∧ (∀ iv ∈ c.2.1, iv.1 ≤ iv.2 ∧ iv.2 ≤ c.1) ∧ (∀ iv ∈ c.2.2, iv.1 ≤ iv.2 ∧ iv.2 ≤ c.1)) :
+    jaccard cs = specJaccard cs ∧ forbes cs = specForbes cs := by
+  have : contingencyGenome cs = specContingencyGenome cs := by
+    simp only [contingencyGenome, specContingencyGenome]
+    congr 1
+    apply List.map_congr_left
+    intro c hc
+    exact contingency_spec c.2.1 c.2.2 c.1 (h c hc).1 (h c hc).2.1 (h c hc).2.2
+  simp only [jaccard, specJaccard, forbes, specForbes, this, and_self]
+
+example : ∀ c ∈ [((5 : Nat), [((0 : Nat), (3 : Nat))], [((2 : Nat), (5 : Nat))]), (3, [], [(1, 2)])],
+    0 < c.1 ∧ (∀ iv ∈ c.2.1, iv.1 ≤ iv.2 ∧ iv.2 ≤ c.1) ∧ (∀ iv ∈ c.2.2, iv.1 ≤ iv.2 ∧ iv.2 ≤ c.1) := by decide
+
+/-! ## merge_intervals equals the per-base scan `specMerge` -/
+
+theorem mergeGo_absorb (d : Nat) (rest : List Iv) : ∀ cs ce s e, (∀ iv ∈ rest, s ≤ iv.1) → SortedByStart rest →
+    mergeGo d cs ce (mergeGo 0 s e rest) = mergeGo d cs ce ((s, e) :: rest) := by
+  induction rest with
+  | nil => intro cs ce s e _ _; rfl
+  | cons y rest ih =>
+    intro cs ce s e hs hsorted
+    obtain ⟨s', e'⟩ := y
+    have hs' : SortedByStart rest := (List.pairwise_cons.1 hsorted).2
+    have hle : ∀ iv ∈ rest, s' ≤ iv.1 := fun iv h => (List.pairwise_cons.1 hsorted).1 iv h
+    have hss' : s ≤ s' := hs (s', e') (by simp)
+    rw [show mergeGo 0 s e ((s', e') :: rest) =
+      (if s' > e + 0 then (s, e) :: mergeGo 0 s' (max e e') rest else mergeGo 0 s (max e e') rest) from rfl]
+    by_cases h1 : s' > e + 0
+    · rw [if_pos h1]
+      -- outer step on (s, e), then the absorbed tail
+      simp only [mergeGo]
+      by_cases h2 : s > ce + d
+      · simp only [h2, if_true]
+        rw [ih s (max ce e) s' (max e e') hle hs']
+        simp only [mergeGo]
+        rw [show max (max ce e) (max e e') = max (max ce e) e' by omega]
+      · simp only [h2, if_false]
+        rw [ih cs (max ce e) s' (max e e') hle hs']
+        simp only [mergeGo]
+        rw [show max (max ce e) (max e e') = max (max ce e) e' by omega]
+    · rw [if_neg h1]
+      rw [ih cs ce s (max e e') (fun iv hiv => Nat.le_trans hss' (hle iv hiv)) hs']
+      simp only [mergeGo]
+      have h3 : ¬ s' > max ce e + d := by omega
+      by_cases h2 : s > ce + d
+      · simp only [h2, if_true, h3, if_false]
+        rw [show max ce (max e e') = max (max ce e) e' by omega]
+      · simp only [h2, if_false, h3]
+        rw [show max ce (max e e') = max (max ce e) e' by omega]
+
+theorem mergeRec_absorb (d : Nat) (rest : List Iv) : ∀ s e, (∀ iv ∈ rest, s ≤ iv.1) → SortedByStart rest →
+    mergeRec d (mergeGo 0 s e rest) = mergeGo d s e rest := by
+  induction rest with
+  | nil => intro s e _ _; rfl
+  | cons y rest ih =>
+    intro s e hs hsorted
+    obtain ⟨s', e'⟩ := y
+    have hs' : SortedByStart rest := (List.pairwise_cons.1 hsorted).2
+    have hle : ∀ iv ∈ rest, s' ≤ iv.1 := fun iv h => (List.pairwise_cons.1 hsorted).1 iv h
+    have hss' : s ≤ s' := hs (s', e') (by simp)
+    rw [show mergeGo 0 s e ((s', e') :: rest) =
+      (if s' > e + 0 then (s, e) :: mergeGo 0 s' (max e e') rest else mergeGo 0 s (max e e') rest) from rfl]
+    by_cases h1 : s' > e + 0
+    · rw [if_pos h1]
+      simp only [mergeRec]
+      rw [mergeGo_absorb d rest s e s' (max e e') hle hs']
+      simp only [mergeGo]
+      rw [show max e (max e e') = max e e' by omega]
+    · rw [if_neg h1, ih s (max e e') (fun iv hiv => Nat.le_trans hss' (hle iv hiv)) hs']
+      simp only [mergeGo]
+      rw [if_neg (by omega)]
+
+/-- merging with distance `d` is merging the maximal runs with distance `d` -/
+theorem merge_merge0 (d : Nat) (I : List Iv) (hs : SortedByStart I) : mergeRec d (mergeRec 0 I) = mergeRec d I := by
+  cases I with
+  | nil => rfl
+  | cons x rest =>
+    obtain ⟨s, e⟩ := x
+    exact mergeRec_absorb d rest s e (fun iv h => (List.pairwise_cons.1 hs).1 iv h) (List.pairwise_cons.1 hs).2
+
+theorem scan_uncovered (I : List Iv) (d : Nat) (ps : List Nat) (st : Option Iv) (rest : List Nat)
+    (h : ∀ p ∈ ps, ¬ 0 < cov I p) : specMergeGo I d (ps ++ rest) st = specMergeGo I d rest st := by
+  induction ps generalizing st with
+  | nil => rfl
+  | cons p ps ih =>
+    have hp := h p (by simp)
+    have ih' := fun st => ih st (fun q hq => h q (by simp [hq]))
+    cases st with
+    | none => simp only [List.cons_append, specMergeGo, if_neg hp]; exact ih' none
+    | some r => obtain ⟨s, e⟩ := r; simp only [List.cons_append, specMergeGo, if_neg hp]; exact ih' (some (s, e))
+
+/-- a covered stretch directly after the current run end just extends the run -/
+theorem scan_extend (I : List Iv) (d : Nat) (rest : List Nat) (x : Nat) : ∀ (n p : Nat),
+    (∀ q, p ≤ q → q < p + n → 0 < cov I q) →
+    specMergeGo I d (List.range' p n ++ rest) (some (x, p)) = specMergeGo I d rest (some (x, p + n)) := by
+  intro n
+  induction n with
+  | zero => intro p _; rfl
+  | succ n ih =>
+    intro p h
+    have hp : 0 < cov I p := h p (Nat.le_refl _) (by omega)
+    rw [List.range'_succ, List.cons_append]
+    simp only [specMergeGo, if_pos hp]
+    rw [if_pos (by omega), ih (p + 1) (fun q h1 h2 => h q (by omega) (by omega))]
+    congr 3; omega
+
+/-- scanning the bases from `c` on over a coverage given by separated runs `M` reproduces `mergeGo` on those runs -/
+theorem scan_runs (I : List Iv) (d size : Nat) (M : List Iv) : ∀ (c : Nat) (st : Option Iv),
+    M.Pairwise (fun a b => a.2 < b.1) → (∀ a ∈ M, a.1 < a.2 ∧ c ≤ a.1 ∧ a.2 ≤ size) →
+    (∀ p, c ≤ p → (0 < cov I p ↔ covered M p = true)) → (∀ r, st = some r → r.2 ≤ c) → c ≤ size →
+    specMergeGo I d (List.range' c (size - c)) st =
+      (match st with | none => mergeRec d M | some r => mergeGo d r.1 r.2 M) := by
+  induction M with
+  | nil =>
+    intro c st _ _ hcov _ _
+    have := scan_uncovered I d (List.range' c (size - c)) st [] (fun p hp => by
+      rw [List.mem_range'_1] at hp
+      rw [hcov p hp.1]; simp [covered])
+    rw [List.append_nil] at this
+    rw [this]
+    cases st with
+    | none => rfl
+    | some r => rfl
+  | cons a M ih =>
+    intro c st hsep hM hcov hst hcs
+    obtain ⟨s, e⟩ := a
+    obtain ⟨hse, hcs', hes⟩ := hM (s, e) (by simp)
+    simp only at hse hcs' hes
+    have hgt : ∀ b ∈ M, e < b.1 := fun b hb => (List.pairwise_cons.1 hsep).1 b hb
+    have hsplit : List.range' c (size - c) = List.range' c (s - c) ++ (List.range' s (e - s) ++ List.range' e (size - e)) := by
+      have h1 := List.range'_append_1 (s := s) (m := e - s) (n := size - e)
+      rw [show s + (e - s) = e by omega, show e - s + (size - e) = size - s by omega] at h1
+      have h2 := List.range'_append_1 (s := c) (m := s - c) (n := size - s)
+      rw [show c + (s - c) = s by omega, show s - c + (size - s) = size - c by omega] at h2
+      rw [h1, h2]
+    have hunc : ∀ p ∈ List.range' c (s - c), ¬ 0 < cov I p := by
+      intro p hp
+      rw [List.mem_range'_1] at hp
+      rw [hcov p hp.1]
+      intro hc
+      rcases (covered_cons _ _ _).1 hc with h3 | h3
+      · simp only at h3; omega
+      · obtain ⟨b, hb, h4, _⟩ := (covered_iff M p).1 h3
+        have := hgt b hb; omega
+    have hcovrun : ∀ q, s ≤ q → q < e → 0 < cov I q := fun q h1 h2 =>
+      (hcov q (by omega)).2 ((covered_cons _ _ _).2 (Or.inl ⟨h1, h2⟩))
+    have hcovrest : ∀ p, e ≤ p → (0 < cov I p ↔ covered M p = true) := by
+      intro p hp
+      rw [hcov p (by omega)]
+      constructor
+      · intro hc
+        rcases (covered_cons _ _ _).1 hc with h3 | h3
+        · simp only at h3; omega
+        · exact h3
+      · exact fun h3 => (covered_cons _ _ _).2 (Or.inr h3)
+    have hM' : ∀ b ∈ M, b.1 < b.2 ∧ e ≤ b.1 ∧ b.2 ≤ size := fun b hb =>
+      ⟨(hM b (by simp [hb])).1, Nat.le_of_lt (hgt b hb), (hM b (by simp [hb])).2.2⟩
+    rw [hsplit, scan_uncovered I d _ st _ hunc]
+    -- the run [s, e): its first base decides between bridging and starting a new run
+    have hrun : List.range' s (e - s) = s :: List.range' (s + 1) (e - s - 1) := by
+      rw [show e - s = (e - s - 1) + 1 by omega, List.range'_succ]; simp
+    have hs0 : 0 < cov I s := hcovrun s (Nat.le_refl _) hse
+    have hext := fun x => scan_extend I d (List.range' e (size - e)) x (e - s - 1) (s + 1)
+      (fun q h1 h2 => hcovrun q (by omega) (by omega))
+    rw [show s + 1 + (e - s - 1) = e by omega] at hext
+    rw [hrun, List.cons_append]
+    cases st with
+    | none =>
+      simp only [specMergeGo, if_pos hs0]
+      rw [hext s, ih e (some (s, e)) (List.pairwise_cons.1 hsep).2 hM' hcovrest (fun r hr => by cases hr; exact Nat.le_refl _) hes]
+      rfl
+    | some r =>
+      obtain ⟨cs, ce⟩ := r
+      have hce : ce ≤ c := hst (cs, ce) rfl
+      simp only [specMergeGo, if_pos hs0]
+      simp only [mergeGo]
+      have hmax : max ce e = e := by omega
+      by_cases hb : s ≤ ce + d
+      · rw [if_pos hb, hext cs, ih e (some (cs, e)) (List.pairwise_cons.1 hsep).2 hM' hcovrest
+          (fun r hr => by cases hr; exact Nat.le_refl _) hes]
+        rw [if_neg (by omega), hmax]
+      · rw [if_neg hb, hext s, ih e (some (s, e)) (List.pairwise_cons.1 hsep).2 hM' hcovrest
+          (fun r hr => by cases hr; exact Nat.le_refl _) hes]
+        rw [if_pos (by omega), hmax]
+
+/-- **`merge_intervals(I, d)` is the per-base definition**: the maximal runs of covered bases, with uncovered gaps of
+at most `d` bases bridged, obtained by scanning the contig base by base (`specMerge`, the oracle the check compares with) -/
+theorem merge_eq_spec (d : Nat) (I : List Iv) (size : Nat) (hs : SortedByStart I)
+    (hI : ∀ iv ∈ I, iv.1 < iv.2 ∧ iv.2 ≤ size) : mergeVec d I = specMerge I d size := by
+  have hne : ∀ iv ∈ I, iv.1 < iv.2 := fun iv h => (hI iv h).1
+  have hsep := (merge_separated 0 I hs).imp (fun {a b} h => by omega : ∀ {a b : Iv}, a.2 + 0 < b.1 → a.2 < b.1)
+  have hM : ∀ a ∈ mergeVec 0 I, a.1 < a.2 ∧ 0 ≤ a.1 ∧ a.2 ≤ size := by
+    intro a ha
+    refine ⟨(merge_tight 0 I hne a ha).1, Nat.zero_le _, ?_⟩
+    obtain ⟨b, hb, hb2⟩ := List.mem_map.1 (merge_endpoints 0 I a ha).2
+    rw [← hb2]; exact (hI b hb).2
+  have hscan := scan_runs I d size (mergeVec 0 I) 0 none hsep hM
+    (fun p _ => (merge_cover I hs p).symm) (fun r hr => by cases hr) (Nat.zero_le _)
+  simp only [specMerge, List.range_eq_range']
+  rw [Nat.sub_zero] at hscan
+  rw [hscan, mergeVec_eq_mergeRec 0, merge_merge0 d I hs, mergeVec_eq_mergeRec]
+
+/-- outside its domain the code differs from the scan: an empty interval is returned as a run -/
+theorem merge_empty_interval_not_spec : mergeVec 0 [(2, 2)] = [(2, 2)] ∧ specMerge [(2, 2)] 0 5 = [] := by decide
+
+example : SortedByStart [(0, 2), (1, 4), (6, 7)] ∧ ∀ iv ∈ [((0 : Nat), (2 : Nat)), (1, 4), (6, 7)], iv.1 < iv.2 ∧ iv.2 ≤ 9 := by
+  unfold SortedByStart; decide
 
 end C08
